@@ -2,6 +2,7 @@ package main
 
 import (
 	"fmt"
+	"strings"
 	"go/token"
 	"go/types"
 	"sort"
@@ -729,7 +730,7 @@ func (a *kindAnalysis) isInterfaceTypeValue(v ssa.Value) bool {
 		a.ifaceT = map[*ssa.Global]bool{}
 		// initialised as <Value of an element of a []interface{}>.Type() or TypeOf((*interface{})(nil)).Elem()
 		for _, fn := range a.m.fns {
-			if fn.Name() != "init" {
+			if !strings.HasPrefix(fn.Name(), "init") {
 				continue
 			}
 			for _, b := range fn.Blocks {
